@@ -227,7 +227,7 @@ func buildAuth(a M) cadence.Authorization {
 type typeCache map[string]cadence.Type
 
 func buildType(t M, env tenv) cadence.Type {
-	if len(env) == 0 {
+	if env == nil {
 		if c := getCache(); c != nil {
 			key := canonJSON(t)
 			if r, ok := c[key]; ok {
@@ -345,12 +345,10 @@ func buildCompType(t M, env tenv) cadence.Type {
 	default:
 		hfail("unknown composite kind in %v", canonJSON(t))
 	}
-	if outer, dup := env[tid]; dup {
-		// the same type ID inside itself with another shape (argument corruptions): an independent type object
-		defer func() { env[tid] = outer }()
-	} else {
-		defer delete(env, tid)
-	}
+	// env lives as long as the embedded type that is being built: a "rec" node refers to the nominal type with
+	// that ID written EARLIER in the traversal (enclosing or sibling) and shares its object, as the JSON-Cadence
+	// encoder expects (first occurrence in full, later ones by type ID). A second FULL definition of an ID is an
+	// independent object (and becomes the target of later references).
 	env[tid] = res
 	fields := buildFields(seq(t, "fields"), env)
 	var inits [][]cadence.Parameter
@@ -709,17 +707,12 @@ func projComp(t cadence.Type, seen map[string]bool) any {
 		ck, loc, qid, inits = "ContractInterface", x.Location, x.QualifiedIdentifier, x.Initializers
 	}
 	tid := t.ID()
-	if seen[tid] {
+	// identity of the type OBJECT: a later occurrence of the same object is a back reference
+	key := fmt.Sprintf("%p", t)
+	if seen[key] {
 		return M{"k": "rec", "tid": tid}
 	}
-	seen[tid] = true
-	defer delete(seen, tid)
-	switch x := t.(type) {
-	case *cadence.EnumType:
-		aux = projOptType(x.RawType, seen)
-	case *cadence.AttachmentType:
-		aux = projOptType(x.BaseType, seen)
-	}
+	seen[key] = true
 	if c, ok := t.(cadence.CompositeType); ok {
 		fields = getCompositeTypeFields(c)
 	} else {
@@ -734,6 +727,13 @@ func projComp(t cadence.Type, seen map[string]bool) any {
 	for _, in := range inits {
 		is = append(is, projParams(in, seen))
 	}
+	// raw type / base type come last (the order in which the encoder writes them)
+	switch x := t.(type) {
+	case *cadence.EnumType:
+		aux = projOptType(x.RawType, seen)
+	case *cadence.AttachmentType:
+		aux = projOptType(x.BaseType, seen)
+	}
 	return M{"k": "comp", "ck": ck, "tid": tid, "fields": fs, "inits": is, "aux": aux}
 }
 
@@ -747,6 +747,91 @@ func eraseCompType(t any) any {
 		out = append(out, M{"id": f.(M)["id"], "t": M{"k": "none"}})
 	}
 	return M{"k": "comp", "ck": m["ck"], "tid": m["tid"], "fields": out, "inits": []any{}, "aux": []any{}}
+}
+
+// normRec brings every embedded type of an abstract value to the normal form "first occurrence of a nominal type
+// in full, later occurrences as rec" (by type ID, in the traversal order fields, initializers, aux): whether a
+// repeated type is a shared object or a copy is an artefact of the codec that produced the value.
+func normRec(x any) any {
+	return normRecIn(x, nil)
+}
+
+func normRecIn(x any, seen map[string]bool) any {
+	switch x := x.(type) {
+	case []any:
+		out := make([]any, len(x))
+		for i, e := range x {
+			out[i] = normRecIn(e, seen)
+		}
+		return out
+	case map[string]any:
+		out := make(M, len(x))
+		for k, e := range x {
+			if k == "t" {
+				// the static / embedded type of a value: one embedded type, normalised on its own
+				defs := map[string]M{}
+				collectDefs(e, defs)
+				out[k] = rewriteRec(e, defs, map[string]bool{})
+				continue
+			}
+			out[k] = normRecIn(e, seen)
+		}
+		return out
+	}
+	return x
+}
+
+func collectDefs(x any, defs map[string]M) {
+	switch x := x.(type) {
+	case []any:
+		for _, e := range x {
+			collectDefs(e, defs)
+		}
+	case map[string]any:
+		if x["k"] == "comp" {
+			if tid, _ := x["tid"].(string); defs[tid] == nil {
+				defs[tid] = x
+			}
+		}
+		for _, e := range x {
+			collectDefs(e, defs)
+		}
+	}
+}
+
+var typeKeyOrder = map[string]int{"tparams": 1, "params": 2, "ret": 3, "key": 1, "t": 2, "types": 2, "fields": 1, "inits": 2, "aux": 4}
+
+func rewriteRec(x any, defs map[string]M, seen map[string]bool) any {
+	switch x := x.(type) {
+	case []any:
+		out := make([]any, len(x))
+		for i, e := range x {
+			out[i] = rewriteRec(e, defs, seen)
+		}
+		return out
+	case map[string]any:
+		if x["k"] == "comp" || x["k"] == "rec" {
+			tid, _ := x["tid"].(string)
+			def := defs[tid]
+			if seen[tid] || def == nil {
+				return M{"k": "rec", "tid": tid}
+			}
+			seen[tid] = true
+			x = def
+		}
+		keys := make([]string, 0, len(x))
+		for k := range x {
+			keys = append(keys, k)
+		}
+		sort.Strings(keys)
+		sort.SliceStable(keys, func(i, j int) bool { return typeKeyOrder[keys[i]] < typeKeyOrder[keys[j]] })
+		out := make(M, len(x))
+		for _, k := range keys {
+			out[k] = rewriteRec(x[k], defs, seen)
+		}
+		return out
+	}
+	return x
 }
 
 // staticT mirrors StaticT of JsonCdc.tla (used only to bring the JSON-decoded value to the common
